@@ -73,7 +73,10 @@ type AdScenario struct {
 	Pad        bool       `json:"pad"`    // the application writes two empty strings after a type-less ad
 	Trailer    bool       `json:"trailer"`
 	AllCuts    bool       `json:"allCuts"` // additionally every single byte offset as a lone cut
-	Salt       string     `json:"salt"`
+	// Budgets: byte budgets tried on the size-limited parsing receiver: "all" = every value
+	// from 0 to a little past the message, "bounds" = every field boundary +-1, "" = none
+	Budgets string `json:"budgets,omitempty"`
+	Salt    string `json:"salt"`
 }
 
 // AdDiff is a conformance difference of an ad scenario.
@@ -94,6 +97,9 @@ type AdObs struct {
 	ValuesChecked   int
 	ValuesOutside   int // rendered texts the full parser rejects
 	CanarySearches  int
+	BudgetRuns      int // GetClassAdWithMaxSize calls of the budget sweep
+	BudgetRefused   int // ... that ended in a clean error
+	BudgetAccepted  int // ... that returned an ad (compared with the unlimited receiver's)
 }
 
 func optClass(c WireCfg) map[string]string {
@@ -492,6 +498,58 @@ func RunAd(sc *AdScenario, obs *AdObs) *AdDiff {
 			obs.ValuesOutside++
 		}
 	}
+	// what a successful return of a receiver must be (every receiver, every framing, every budget)
+	checkOK := func(kind string, v cutVariant, r Recv, sig func(string) map[string]string) *AdDiff {
+		if r.RestErr != nil || !bytes.Equal(r.Rest, wantRest) || r.Unread != 0 {
+			return &AdDiff{sig("consumption"),
+				fmt.Sprintf("%s on %s framing left %d bytes of the message unread (%q), the ad ends %d bytes before the end; %d connection bytes never read (%v)",
+					kind, v.name, len(r.Rest), trunc(r.Rest), len(wantRest), r.Unread, r.RestErr)}
+		}
+		switch kind {
+		case "parse", "parseMax":
+			got := map[string]bool{}
+			for _, n := range r.Ad.GetAttributes() {
+				got[strings.ToLower(n)] = true
+			}
+			if d := setDiff(wantNames, got); d != "" {
+				return &AdDiff{sig("attribute set"), fmt.Sprintf("%s on %s framing reconstructs a different attribute set: %s", kind, v.name, d)}
+			}
+			for _, ln := range order {
+				if ln == "servertime" && sc.Cfg.Opts&BitServerTime != 0 && !rawSender {
+					continue // the sender's or the injected value: either (statement silent)
+				}
+				f := items[ln]
+				o := Ask(f.val)
+				if !o.Accepts {
+					obs.ValuesOutside++
+					continue
+				}
+				obs.ValuesChecked++
+				e, _ := r.Ad.Lookup(ln)
+				if same, gotv := SameValue(e, &o); !same {
+					want := o.Canon
+					if o.Lit != nil {
+						want = o.Lit.String()
+					}
+					ld := &LitDiff{Kind: KindOf(e)}
+					s := LitSignature(f.val, ld)
+					return &AdDiff{s, fmt.Sprintf("attribute %s rendered as %q: the full parser assigns %s, %s decoded %s", ln, f.val, want, kind, gotv)}
+				}
+			}
+			for i, tn := range []string{"mytype", "targettype"} {
+				if len(wantTail) >= 2 && wantTail[i] != "" {
+					if s, ok := r.Ad.EvaluateAttrString(tn); !ok || s != wantTail[i] {
+						return &AdDiff{sig("type name"), fmt.Sprintf("%s reconstructs %s = %q, sender's type name is %q", kind, tn, s, wantTail[i])}
+					}
+				}
+			}
+		case "raw":
+			if r.Raw != wantRaw.String() {
+				return &AdDiff{sig("raw text"), fmt.Sprintf("GetClassAdRaw on %s framing returns %q, the sender rendered %q", v.name, trunc([]byte(r.Raw)), trunc([]byte(wantRaw.String())))}
+			}
+		}
+		return nil
+	}
 	for vi, v := range variants {
 		for _, kind := range []string{"parse", "parseMax", "raw", "skip"} {
 			obs.Receivers++
@@ -524,53 +582,107 @@ func RunAd(sc *AdScenario, obs *AdObs) *AdDiff {
 				}
 				return &AdDiff{sig("error"), fmt.Sprintf("%s fails on %s framing: %v", kind, v.name, r.Err)}
 			}
-			if r.RestErr != nil || !bytes.Equal(r.Rest, wantRest) || r.Unread != 0 {
-				return &AdDiff{sig("consumption"),
-					fmt.Sprintf("%s on %s framing left %d bytes of the message unread (%q), the ad ends %d bytes before the end; %d connection bytes never read (%v)",
-						kind, v.name, len(r.Rest), trunc(r.Rest), len(wantRest), r.Unread, r.RestErr)}
+			if d := checkOK(kind, v, r, sig); d != nil {
+				return d
 			}
-			switch kind {
-			case "parse", "parseMax":
-				got := map[string]bool{}
-				for _, n := range r.Ad.GetAttributes() {
-					got[strings.ToLower(n)] = true
+		}
+	}
+
+	// ---- the size-limited parsing receiver under every byte budget of the plan: a clean
+	// error, or exactly what the unlimited receiver yields (ad, type names, consumption, trailer)
+	if sc.Budgets != "" && (sc.RecvOK || sc.Pad || rawSender) {
+		payload := 0
+		for _, f := range frames {
+			payload += len(f.Data)
+		}
+		type bound struct {
+			at   int
+			name string
+		}
+		var bounds []bound
+		cum := 0
+		for _, it := range wad.Items {
+			if it.Secret {
+				cum += len(refcodec.C08SecretMarker) + 1
+				bounds = append(bounds, bound{cum, "after marker"})
+			}
+			cum += len(it.Text) + 1
+			bounds = append(bounds, bound{cum, "after item"})
+		}
+		if sc.Cfg.Opts&BitNoTypes == 0 || rawSender {
+			cum += len(wantTail[0]) + 1
+			bounds = append(bounds, bound{cum, "after MyType"})
+			cum += len(wantTail[1]) + 1
+			bounds = append(bounds, bound{cum, "after TargetType"})
+		}
+		class := func(b int) string {
+			switch {
+			case b == 0:
+				return "unlimited"
+			case b >= payload:
+				return "whole message"
+			}
+			for _, x := range bounds {
+				if x.at == b {
+					return x.name
 				}
-				if d := setDiff(wantNames, got); d != "" {
-					return &AdDiff{sig("attribute set"), fmt.Sprintf("%s on %s framing reconstructs a different attribute set: %s", kind, v.name, d)}
+			}
+			if b > cum {
+				return "past the ad"
+			}
+			return "inside a field"
+		}
+		var budgets []int
+		if sc.Budgets == "all" && payload <= 600 {
+			for b := 0; b <= payload+4; b++ {
+				budgets = append(budgets, b)
+			}
+		} else {
+			seen := map[int]bool{}
+			add := func(b int) {
+				if b >= 0 && !seen[b] {
+					seen[b] = true
+					budgets = append(budgets, b)
 				}
-				for _, ln := range order {
-					if ln == "servertime" && sc.Cfg.Opts&BitServerTime != 0 && !rawSender {
-						continue // the sender's or the injected value: either (statement silent)
-					}
-					f := items[ln]
-					o := Ask(f.val)
-					if !o.Accepts {
-						obs.ValuesOutside++
-						continue
-					}
-					obs.ValuesChecked++
-					e, _ := r.Ad.Lookup(ln)
-					if same, gotv := SameValue(e, &o); !same {
-						want := o.Canon
-						if o.Lit != nil {
-							want = o.Lit.String()
-						}
-						ld := &LitDiff{Kind: KindOf(e)}
-						s := LitSignature(f.val, ld)
-						return &AdDiff{s, fmt.Sprintf("attribute %s rendered as %q: the full parser assigns %s, %s decoded %s", ln, f.val, want, kind, gotv)}
-					}
+			}
+			add(0)
+			add(1)
+			for _, x := range bounds {
+				add(x.at - 1)
+				add(x.at)
+				add(x.at + 1)
+			}
+			add(payload)
+			add(payload + 1)
+		}
+		sender := variants[0]
+		for _, b := range budgets {
+			obs.Receivers++
+			obs.BudgetRuns++
+			r := ReceiveBudget(sc.Cfg.St, key, sender.raw, b)
+			cls := class(b)
+			sig := func(what string) map[string]string {
+				s := base("Receive")
+				s["reader"] = "parseMax"
+				s["budget"] = cls
+				s["cut"] = sender.name
+				s["what"] = what
+				return s
+			}
+			if r.Err != nil {
+				switch {
+				case strings.Contains(r.Err.Error(), "receiver panic"):
+					return &AdDiff{sig("panic"), fmt.Sprintf("GetClassAdWithMaxSize(%d) on a %d-byte message: %v", b, payload, r.Err)}
+				case (b == 0 || b >= payload) && allAccepted:
+					return &AdDiff{sig("error"), fmt.Sprintf("GetClassAdWithMaxSize(%d) refuses an ad although the budget covers the whole %d-byte message: %v", b, payload, r.Err)}
 				}
-				for i, tn := range []string{"mytype", "targettype"} {
-					if len(wantTail) >= 2 && wantTail[i] != "" {
-						if s, ok := r.Ad.EvaluateAttrString(tn); !ok || s != wantTail[i] {
-							return &AdDiff{sig("type name"), fmt.Sprintf("%s reconstructs %s = %q, sender's type name is %q", kind, tn, s, wantTail[i])}
-						}
-					}
-				}
-			case "raw":
-				if r.Raw != wantRaw.String() {
-					return &AdDiff{sig("raw text"), fmt.Sprintf("GetClassAdRaw on %s framing returns %q, the sender rendered %q", v.name, trunc([]byte(r.Raw)), trunc([]byte(wantRaw.String())))}
-				}
+				obs.BudgetRefused++
+				continue
+			}
+			obs.BudgetAccepted++
+			if d := checkOK("parseMax", sender, r, sig); d != nil {
+				d.Detail = fmt.Sprintf("GetClassAdWithMaxSize with budget %d (the ad's strings take %d bytes, the message %d) returns success, but not the unlimited receiver's result: %s", b, cum, payload, d.Detail)
+				return d
 			}
 		}
 	}
